@@ -22,7 +22,7 @@ MANIFEST = dict(
          "(numbers reach the renderer as their str() text, normalisation is C14).",
     technique="Lean 4 proof (list induction, mutual structural induction over the tree, decide +kernel for table side conditions) + differential correspondence",
 )
-PROP_FILES = ["HtmlVerif/Props/C02.lean"]
+PROP_FILES = ["HtmlVerif/Props/C02.lean", "HtmlVerif/Props/SrcEscape.lean"]
 ALPHA = "&<>;#a"
 
 
@@ -64,6 +64,7 @@ def run(tier: str) -> int:
         s = l.split(" ", 2)[2]
         nt = any(x in s.split(".") for x in ("26", "3c", "3e"))
         ck.add(l, im, nontrivial=nt, tag="escape")
+    ck.add_src(['html_escape', 'normalize_text'])
     ck.correspond(holds=True)
     # the exported function and the compatibility alias are the same mapping
     ck.holds_checked += 1
